@@ -125,3 +125,7 @@ def run(ctx):
         ok = okq and oks and oko
         ctx.ob('BLOCK-SEEK', name, ok, g.loc(g.body), 'quotient/remainder %s; block byte offset %s %s; counter-decode-position order %s' % (
             'by ' + spb if okq else 'NOT by the same %s' % spb, 'ok' if oks else 'WRONG', blockseeks, 'ok' if oko else 'WRONG'), None)
+
+    ctx.rule('SIBLING-INDEX', 'shared with C05: the typed read variants of a block codec address its decoded block buffer identically (a read through another sample type sees the same frames)', floor=30)
+    from engine.siblings import check_siblings
+    check_siblings(ctx, prog, 'SIBLING-INDEX', ('pcm.c', 'float32.c', 'double64.c', 'ulaw.c', 'alaw.c'))
